@@ -9,6 +9,7 @@ mod c04;
 mod c05;
 mod c06;
 mod c09;
+mod c10;
 mod c12;
 mod c13;
 mod c14;
@@ -61,6 +62,7 @@ fn main() {
         "c05-worker" => c05::worker(&args[1..]),
         "c06" => c06::run(opts),
         "c09" => c09::run(opts),
+        "c10" => c10::run(opts),
         "c12" => c12::run(opts),
         "c13" => c13::run(opts),
         "c14" => c14::run(opts),
